@@ -218,15 +218,17 @@ struct iauth_request *iauth_validate_request(const char routing[])
 {
     struct iauth_request *req;
     char *sep;
+    const char *start;
     unsigned int serial;
     int id;
 
     /* Parse the routing tag. */
     id = strtol(routing, &sep, 16);
-    if (sep[0] != '_')
+    if (sep == routing || sep[0] != '_')
         return NULL;
-    serial = strtoul(sep + 1, &sep, 16);
-    if (sep[0] != '\0')
+    start = sep + 1;
+    serial = strtoul(start, &sep, 16);
+    if (sep == start || sep[0] != '\0')
         return NULL;
 
     /* Look up the client and check that it is the correct one. */
